@@ -58,7 +58,19 @@ def replay_state(sp, st, variant):
     x_passed = np.array(st["x0"], dtype=np.float64)
     Pd = st["P"]
     Pf = None if len(Pd) == 0 else (lambda v, d=np.array(Pd, dtype=np.float64): d * v)
-    if variant % 2 == 0:
+    is_identity = np.array_equal(A, np.eye(n))
+    if is_identity and variant % 3 == 0:
+        Aop = lambda v: v                       # an operator that hands back its input array (Identity does)
+    elif is_identity and variant % 3 == 1:
+        Il = sp.linop.Identity([n])
+        Aop = lambda v: Il(v)
+    elif variant % 4 == 2:
+        obuf = np.zeros(n)
+
+        def Aop(v):                             # an operator that writes into one persistent output buffer
+            obuf[:] = A @ v
+            return obuf
+    elif variant % 2 == 0:
         Aop = lambda v: A @ v
     else:
         L = sp.linop.MatMul([n, 1], A)
